@@ -559,6 +559,8 @@ fn run_scenario(engine: &Engine, wasm: &[u8], export: &str, args: &[u64], script
         prov.write(&mut store, *a, b)?;
     }
     let mut linker: Linker<Script> = Linker::new(engine);
+    // a module may import the same name more than once: one definition serves every occurrence
+    linker.allow_shadowing(true);
     let mut foreign: Vec<Memory> = Vec::new();
     let (imps, _) = imports_of(wasm)?;
     for (m, n, kind, sig) in &imps {
@@ -831,10 +833,10 @@ fn cmd_c04(seed: u64, n: u64, ops_path: &str, impl_path: &str) -> Result<()> {
     let mut hist: HashMap<String, u64> = HashMap::new();
     // the glue family first (these lines are answered by the Lean interpreter too)
     let fam = family(&api);
-    let mut modules: Vec<(Vec<u8>, Vec<usize>, bool)> = Vec::new();
+    let mut modules: Vec<(Vec<u8>, Vec<usize>, bool, Option<usize>)> = Vec::new();
     for (_, g) in &fam {
         let wasm = wat::parse_str(&build_guest(&api, g))?;
-        modules.push((trampoline(&wasm)?, g.apis.clone(), true));
+        modules.push((trampoline(&wasm)?, g.apis.clone(), true, None));
     }
     // generated modules: any subset / order of API imports, foreign imports, own code
     for _ in 0..(n / 12).max(3) {
@@ -845,17 +847,27 @@ fn cmd_c04(seed: u64, n: u64, ops_path: &str, impl_path: &str) -> Result<()> {
         }
         let keep = rng.range(1, api.len() as u64) as usize;
         idx.truncate(keep);
-        let g = GuestSpec { apis: idx.clone(), foreign_first: rng.below(2) == 0, foreign_between: rng.below(2) == 0, own_stuff: rng.below(2) == 0, memories: 1, module_name: API_MODULE.into(), own_state: true, foreign_memory: rng.below(3) == 0, bad_sig: None, extra_import: None, dup: None, nonfunc: None };
+        // every third generated module imports one of its API functions a second time (valid Wasm)
+        let dup = if rng.below(3) == 0 { Some(idx[rng.below(idx.len() as u64) as usize]) } else { None };
+        let g = GuestSpec { apis: idx.clone(), foreign_first: rng.below(2) == 0, foreign_between: rng.below(2) == 0, own_stuff: rng.below(2) == 0, memories: 1, module_name: API_MODULE.into(), own_state: true, foreign_memory: rng.below(3) == 0, bad_sig: None, extra_import: None, dup: dup.map(|k| (k, api[k].sig.clone())), nonfunc: None };
         let wasm = wat::parse_str(&build_guest(&api, &g))?;
-        modules.push((trampoline(&wasm)?, idx, false));
+        modules.push((trampoline(&wasm)?, idx, false, dup));
     }
     for i in 0..n {
         let mi = if i % 3 == 0 { (i / 3) as usize % 3 } else { rng.below(modules.len() as u64) as usize };
-        let (wasm, apis, in_family) = &modules[mi];
-        let k = apis[rng.below(apis.len() as u64) as usize];
+        let (wasm, apis, in_family, dup) = &modules[mi];
+        let mut k = apis[rng.below(apis.len() as u64) as usize];
+        let mut path = ["api", "w", "t"][rng.below(3) as usize];
+        let mut export = format!("{}_{}", path, k);
+        if let Some(dk) = dup {
+            if rng.below(2) == 0 {
+                // the second occurrence of a repeated import
+                k = *dk;
+                path = "dup";
+                export = "api_dup".to_string();
+            }
+        }
         let sc = gen_scenario(&mut rng, &api, k, None);
-        let path = ["api", "w", "t"][rng.below(3) as usize];
-        let export = format!("{}_{}", path, k);
         let run = run_scenario(&eng, wasm, &export, &sc.args, &sc.script, &sc.ginit, &sc.pinit)?;
         let exp = oracle(&api[k], &sc.args, &sc.script, &run.guest0, &run.prov0);
         total += 1;
